@@ -30,7 +30,8 @@ import (
 func init() { props["C10"] = runC10 }
 
 var c10Comps = []string{"a", "b", "src", "docs", "a b", " lead", "trail ", "t\tab", "q\"uote", "back\\slash", "\u00e9", "\u65e5\u672c",
-	"star*", "qm?", "br[x]", "\x01ctl", "\x7f", "-dash", ".hidden", "name.txt", "x:y", "a'b", "{brace}", "#hash", "~tilde", "a\rb", "\u00e9t\u00e9 1", "sp  two"}
+	"star*", "qm?", "br[x]", "\x01ctl", "\x7f", "-dash", ".hidden", "name.txt", "x:y", "a'b", "{brace}", "#hash", "~tilde", "a\rb", "\u00e9t\u00e9 1", "sp  two",
+	"w\\in", "a\\*b", "\\lead", "back\\slash"}
 
 // hybridStore: everything from the in-memory store except path and commit enumeration, which go
 // through pkg/gitinterface on the mirrored real repository.
@@ -89,7 +90,11 @@ func c10Path(r *rand.Rand) string {
 		if i < n-1 && r.Intn(2) == 0 {
 			parts = append(parts, []string{"src", "docs", "a b", "\u00e9", "star*"}[r.Intn(5)])
 		} else {
-			parts = append(parts, c10Comps[r.Intn(len(c10Comps))])
+			if r.Intn(8) == 0 {
+				parts = append(parts, []string{"w\\in", "\\lead", "back\\slash"}[r.Intn(3)])
+			} else {
+				parts = append(parts, c10Comps[r.Intn(len(c10Comps))])
+			}
 		}
 	}
 	return strings.Join(parts, "/")
@@ -230,7 +235,13 @@ func runC10(c *runCtx) error {
 			pats := []string{}
 			for j := 0; j < 1+r.Intn(2); j++ {
 				p := pathList[r.Intn(len(pathList))]
-				switch r.Intn(6) {
+				sel := r.Intn(7)
+				if strings.ContainsAny(p, "\\*?[") && r.Intn(2) == 0 {
+					sel = 6
+				}
+				switch sel {
+				case 6: // the exact path, with the pattern language's special characters escaped
+					p = strings.NewReplacer("\\", "\\\\", "*", "\\*", "?", "\\?", "[", "\\[").Replace(p)
 				case 0:
 					if k := strings.LastIndex(p, "/"); k >= 0 {
 						p = p[:k] + "/*"
@@ -254,6 +265,14 @@ func runC10(c *runCtx) error {
 				thr = 2
 			}
 			t.Rules = append(t.Rules, hRule{Name: fmt.Sprintf("f%d", i+1), Patterns: pats, Pids: pids, Thr: thr, Term: r.Intn(4) == 0})
+		}
+		// a path with a backslash can only be named exactly by writing the backslash twice
+		for _, p := range pathList {
+			if strings.Contains(p, "\\") && !strings.ContainsAny(p, "*?[") && r.Intn(2) == 0 {
+				t.Rules = append(t.Rules, hRule{Name: fmt.Sprintf("f%d", len(t.Rules)+1), Patterns: []string{"file:" + strings.ReplaceAll(p, "\\", "\\\\")},
+					Pids: []int{101 + r.Intn(4)}, Thr: 1})
+				break
+			}
 		}
 		pol := &wPolicy{RootVersion: 1, RootKeys: []int{1}, RootThr: 1, TargetsKeys: []int{2}, TargetsThr: 1, HasTargetsRole: true,
 			RootSigners: []int{1}, Files: []*wFile{t}}
